@@ -4,14 +4,14 @@
 # Results are appended to /verif/seeded/Cxx-<n>/verification.txt
 set -u
 id=$1; n=$2; tier=${3:-quick}
-src=/tmp/seed-out/$id
-dst=/verif/seeded/$id-$n
+src=${SEED_SRC:-/tmp/seed-out}/$id
+dst=/verif/seeded/$id-${SEED_TAG:-}$n
 mkdir -p $dst
 [ -f $src/patch$n.diff ] && cp $src/patch$n.diff $dst/patch.diff
 [ -f $src/demo${n}_test.go ] && cp $src/demo${n}_test.go $dst/demo_test.go
 [ -f $src/meta$n.json ] && cp $src/meta$n.json $dst/meta.json
 export GOFLAGS=-mod=mod GOPROXY=off
-wt=/tmp/sv-$id-$n
+wt=/tmp/sv-$id-${SEED_TAG:-}$n
 git -C /repo worktree remove --force $wt 2>/dev/null
 git -C /repo worktree add -q $wt HEAD || exit 2
 out=$dst/verification.txt
